@@ -762,7 +762,35 @@ def explicit_panics(ctx, rid, crates, G):
                         reach = sorted(possible & vs)
                     b = R.binding(loc_, upto)
                     is_param = b is not None and b[0] == "param"
-                    ctx.inst(rid, key, True if not reach else (False if is_param else None),
+                    definite = is_param
+                    if reach and is_param:
+                        # a helper sees only what its callers pass: the variants that can arrive are those left over at each call site
+                        arriving, complete = set(), True
+                        n_calls = 0
+                        for c2 in crates:
+                            for name2, f2 in c2.hir.items():
+                                if f2.get("body") is None or "::tests::" in name2:
+                                    continue
+                                for call, pth in sites_with_path(f2["body"], lambda z: H.kind(z) in ("Call", "MethodCall") and z.get("def") == fname):
+                                    n_calls += 1
+                                    args_ = ([call["recv"]] if H.kind(call) == "MethodCall" else []) + list(call.get("args", []))
+                                    arg = args_[b[1]] if b[1] < len(args_) else None
+                                    al = H.path_local(arg) if arg is not None else None
+                                    if al is None:
+                                        complete = False
+                                        continue
+                                    R2 = Resolver(c2, G, f2)
+                                    R2.all_crates, R2.fn_name, R2.pratt, R2.site_path = crates, name2, pratt, pth
+                                    poss2, _ = R2.enum_possible(al, ety, pth)
+                                    if poss2 is None:
+                                        complete = False
+                                    else:
+                                        arriving |= poss2
+                        if n_calls and complete:
+                            reach = sorted(set(reach) & arriving)
+                        elif n_calls:
+                            definite = False
+                    ctx.inst(rid, key, True if not reach else (False if definite else None),
                              "variants of `%s` that can arrive at this match: %d; reaching the %s! arm: %s" % (loc_, len(possible), node["name"], reach or "none (answered by enclosing arms / earlier returns)"), H.loc(node))
                     continue
                 # (T) match on a field of self
